@@ -130,6 +130,8 @@ type Exec struct {
 	rootCon    *Contract
 	callSeen   map[string]int
 	inGhost    int
+	fileParams map[int]bool // spec mode: bound parameters of type *os.File (they hold the file id)
+	reliableIO bool
 }
 
 type inlineFrame struct {
@@ -515,7 +517,9 @@ func (x *Exec) elemRef(arr, i *Term) *Term {
 			c.Eq(c.App("elemref_arr", e), a),
 			c.Eq(c.App("elemref_idx", e), j),
 			c.Eq(c.Mod(e, c.Int(embN)), c.Int(embN-1)),
-			c.Gt(e, c.Int(0))), []*Term{e}))
+			c.Gt(e, c.Int(0)), c.Ge(e, a)), []*Term{e}))
+		ev := c.Bound("e", SInt)
+		c.AddAxiom("elemref_arr", c.Forall([]*Term{ev}, c.Le(c.App("elemref_arr", ev), ev), []*Term{c.App("elemref_arr", ev)}))
 	}
 	return c.App("elemref", arr, i)
 }
@@ -608,9 +612,31 @@ func (x *Exec) allocRef(st *State, what string) *Term {
 	c := x.c
 	r := c.Fresh("new_"+what, SInt)
 	al := x.heapGet(st, "alloc", SArr(SInt, SBool))
-	x.assumeGlobal(st, c.And(c.Gt(r, c.Int(embN*embN)), c.Eq(c.Mod(r, c.Int(embN)), c.Int(0)), c.Not(c.Select(al, r))))
+	// bump allocation: a new root lies above everything that exists (ghost.brk), and the next
+	// allocation lies above all interior addresses of this object (three nesting levels)
+	brk := x.heapGet(st, "ghost.brk", SInt)
+	x.assumeGlobal(st, c.And(c.Gt(r, c.Int(embN*embN)), c.Eq(c.Mod(r, c.Int(embN)), c.Int(0)), c.Not(c.Select(al, r)), c.Ge(r, brk)))
 	x.heapSet(st, "alloc", c.Store(al, r, c.True()))
+	n3 := c.Int(embN * embN * embN)
+	x.heapSet(st, "ghost.brk", c.Add(c.Mul(r, n3), n3))
 	return r
+}
+
+// belowBrk: a reference obtained from the state lies below the allocation frontier — below the
+// entry frontier if it was read from an untouched entry component.
+func (x *Exec) belowBrk(st *State, t *Term) *Term {
+	c := x.c
+	if isEntryRead(t) {
+		return c.Lt(t, c.Const("H0_ghost.brk", SInt))
+	}
+	return c.Lt(t, x.heapGet(st, "ghost.brk", SInt))
+}
+
+func isEntryRead(t *Term) bool {
+	for t.kind == kApp && t.op == "select" {
+		t = t.args[0]
+	}
+	return t.kind == kConst && strings.HasPrefix(t.op, "H0_")
 }
 
 func (x *Exec) isAlloc(st *State, r *Term) *Term {
@@ -638,7 +664,7 @@ func (x *Exec) noteRead(st *State, t *Term, typ types.Type) {
 		x.rangeFacts[t.id] = true
 		// references read from the heap are nil or allocated (Go memory safety), never negative
 		al := x.heapGet(st, "alloc", SArr(SInt, SBool))
-		x.assumeGlobal(st, x.c.And(x.c.Ge(t, x.c.Int(0)), x.c.Or(x.c.Eq(t, x.c.Int(0)), x.c.Select(al, embRoot(t)))))
+		x.assumeGlobal(st, x.c.And(x.c.Ge(t, x.c.Int(0)), x.c.Or(x.c.Eq(t, x.c.Int(0)), x.c.Select(al, embRoot(t))), x.belowBrk(st, t)))
 	}
 }
 
@@ -665,7 +691,7 @@ func (x *Exec) noteSlice(st *State, v Val) {
 	// the backing array of a slice reachable from the state exists (nil or allocated)
 	if v.Arr.kind != kIntLit {
 		al := x.heapGet(st, "alloc", SArr(SInt, SBool))
-		f = c.And(f, c.Or(c.Eq(v.Arr, c.Int(0)), c.Select(al, embRoot(v.Arr))))
+		f = c.And(f, c.Or(c.Eq(v.Arr, c.Int(0)), c.Select(al, embRoot(v.Arr))), x.belowBrk(st, v.Arr))
 	}
 	x.assumeGlobal(st, f)
 }
